@@ -1,15 +1,17 @@
 """C03 - write-ahead: no outcome is visible before the backend has accepted its record."""
 from checks import oracles
-from checks.durable_check import replay_execution, run_durable
+from checks.durable_check import fault_enumeration, replay_execution, run_durable
 
 
 def run(ctx):
     run_durable(ctx,
                 model=["s01_step_wait_retry", "s03_child_wfc", "s04_cb_invoke", "s09_large_final"],
                 programs=["s01_step_wait_retry", "s02_amo_retry_caughtfail", "s03_child_wfc", "s04_cb_invoke", "s09_large_final",
-                          "s10_uncaught_failure", "s12_wfc_three_polls", "s16_wait_wait"],
+                          "s10_uncaught_failure", "s12_wfc_three_polls", "s16_wait_wait", "s22_slow_steps", "s23_slow_caught"],
                 oracle_fns=[oracles.c03, oracles.c06, oracles.c07],
                 scen_kw={"crash": 0.3, "faults": 0.5, "pct": 0.6},
+                post=lambda c, ex: fault_enumeration(c, ["s01_step_wait_retry", "s03_child_wfc", "s12_wfc_three_polls", "s22_slow_steps",
+                                                        "s23_slow_caught"], [oracles.c03, oracles.c06], faults=["invalid_param", "throttle429"]),
                 extra_rule="Oracle: at every delivery the backend table (read in the same scheduling step) holds the terminal record; "
                            "PENDING only with something registered; the consumer thread is delayed arbitrarily by PCT/random schedules; "
                            "checkpoint API faults at random call positions.")
